@@ -744,6 +744,23 @@ class Executor:
             return
         raise OutOfSubset("extend with symbolic sequence", node)
 
+    def seq_concat(self, a, b, node):
+        sa, sb = a.to_symbolic(), b.to_symbolic()
+        if sa.arr.sort() != sb.arr.sort():
+            if sa.arr.sort().range() == z3.IntSort() and a.concrete:
+                sa = Seq(a.kind, [V.to_z3(V.bool_to_int(x), True) for x in a.items]).to_symbolic()
+            elif sb.arr.sort().range() == z3.IntSort() and b.concrete:
+                sb = Seq(b.kind, [V.to_z3(V.bool_to_int(x), True) for x in b.items]).to_symbolic()
+            else:
+                raise OutOfSubset("concatenation of sequences of different element sorts", node)
+        la, lb = V.to_z3(sa.len()), V.to_z3(sb.len())
+        arr = self.S.array("concat", z3.IntSort(), sa.arr.sort().range())
+        i = z3.Int("cci")
+        self.assume(z3.ForAll([i], z3.Implies(z3.And(i >= 0, i < la), z3.Select(arr, i) == z3.Select(sa.arr, i)), patterns=[z3.Select(arr, i)]), "def:concat")
+        self.assume(z3.ForAll([i], z3.Implies(z3.And(i >= la, i < la + lb), z3.Select(arr, i) == z3.Select(sb.arr, i - la)), patterns=[z3.Select(arr, i)]), "def:concat")
+        n = sa.len() + sb.len() if isinstance(sa.len(), int) and isinstance(sb.len(), int) else z3.simplify(la + lb)
+        return Seq(a.kind, None, n, arr)
+
     def seq_eq(self, a, b):
         if a.concrete and b.concrete:
             if len(a.items) != len(b.items):
@@ -826,7 +843,7 @@ class Executor:
                 return self.elementwise(op, a, b, node)
             if a.concrete and b.concrete:
                 return Seq(a.kind, a.items + b.items)
-            raise OutOfSubset("concatenation of symbolic sequences", node)
+            return self.seq_concat(a, b, node)
         if isinstance(a, SetV) and isinstance(b, SetV) and isinstance(op, (ast.BitOr, ast.BitAnd, ast.Sub)):
             k = z3.Const("setk", a.arr.sort().domain())
             x, y = z3.Select(a.arr, k), z3.Select(b.arr, k)
@@ -959,11 +976,19 @@ class Executor:
                 r = self.seq_eq(a, b)
             elif isinstance(a, V.Inf) or isinstance(b, V.Inf):
                 r = isinstance(a, V.Inf) and isinstance(b, V.Inf) and a.sign == b.sign
+            elif V.is_bool(a) and V.is_bool(b):
+                r = (a == b) if (isinstance(a, bool) and isinstance(b, bool)) else (V.to_z3(a) == V.to_z3(b))
+            elif (V.is_bool(a) and is_z3(a) and V.is_num(b)) or (V.is_bool(b) and is_z3(b) and V.is_num(a)):
+                x, y, _ = V.coerce_pair(a, b)
+                r = x == y
             elif V.is_num(a) and V.is_num(b):
                 if not is_z3(a) and not is_z3(b):
                     r = a == b
                 elif V.is_bool(a) and V.is_bool(b):
                     r = V.to_z3(a) == V.to_z3(b)
+                elif (V.is_bool(a) and is_z3(a) and isinstance(b, int)) or (V.is_bool(b) and is_z3(b) and isinstance(a, int)):
+                    x, y, _ = V.coerce_pair(a, b)
+                    r = x == y
                 else:
                     x, y, _ = V.coerce_pair(a, b)
                     r = x == y
@@ -1093,6 +1118,13 @@ class Executor:
             raise OutOfSubset("nested comprehension", e)
         g = e.generators[0]
         it = self.eval(g.iter, env)
+        if isinstance(it, RangeV) and not all(isinstance(x, int) for x in (it.lo, it.hi)) and it.step == 1 and not g.ifs:
+            # comprehension over a symbolic range: length is exact, the elements are left unconstrained (sound
+            # over-approximation for pure element expressions; exceptions inside the element expression are not modelled)
+            n = z3.simplify(V.to_z3(it.hi) - V.to_z3(it.lo))
+            n = z3.If(n >= 0, n, z3.IntVal(0))
+            self.assumed.append("comprehension at L%d over a symbolic range: exact length, unconstrained elements" % e.lineno)
+            return Seq("list", None, z3.simplify(n), self.S.array("comp", z3.IntSort(), z3.RealSort()))
         items = self.concrete_items(it, e)
         out = []
         sub = dict(env)
